@@ -117,6 +117,10 @@ fn am_last_dir(am: &Amortised) -> std::path::PathBuf {
 fn shard(ctx: &ShardCtx) -> ShardResult {
     let mut res = ShardResult::default();
     let mut am = Amortised::new(&ctx.work());
+    if let Err(e) = am.warm() {
+        res.harness_fault = Some(format!("std does not compile: {e}"));
+        return res;
+    }
     let mut i = ctx.first_index;
     while ctx.time_left() {
         let case = case_at(ctx.seed, ctx.shard, i, 12, &mut res);
